@@ -77,7 +77,8 @@ CLAIMED = {
          "per-run kernel-checked encoder tables + correspondence on the value classes of the quantifier text",
          "C09_range (an accepted number's rounded quotient lies in the representable interval with the top code reserved; "
          "two's complement, never wrapped or clipped), C09_missing (a message lacking a listed field is never encoded), "
-         "C09_local (changing a field changes only its bits), C09_reads_back, C09_absent; C02_bits for the tables of this run. "
+         "C09_local (changing a field changes only its bits), C09_reads_back, C09_absent; C02_bits for the tables of this run; "
+         "C09_enc_lookups for this run: the regenerated encode table of every LOOKUP field is the inverted database table. "
          "C09_half_step (RangeProofs.v, Flocq): every accepted value v is encoded to a raw n with |n*resolution - v| <= |resolution|/2 + "
          "2^-53*|v| (all four int/float typings; C09_half_step_int: 2|n*k - v| <= k for |v| < 2^52, k+1 up to 2^53 - the double "
          "quotient can round a near-tie - with a kernel-evaluated example that agrees with CPython); C09_decodes_back_close: decoding "
